@@ -193,9 +193,11 @@ func genCase(rnd *rand.Rand, cfg genCfg, id int) *Case {
 		c.Cmds["wait"] = []string{"done", "done", "pend", "fail"}[rnd.Intn(4)]
 		g.hostWait = true
 	}
+	hostStop := false
 	if cfg.PendCmds && rnd.Intn(3) == 0 {
 		// the host registers a handler under `stop`: <<stop>> still ends the dialogue and is never dispatched
 		c.Cmds["stop"] = []string{"pend", "done", "fail"}[rnd.Intn(3)]
+		hostStop = true
 	}
 	nn := 1 + rnd.Intn(cfg.MaxNodes)
 	g.titles = nodeTitles[:nn]
@@ -249,6 +251,11 @@ func genCase(rnd *rand.Rand, cfg genCfg, id int) *Case {
 		}
 		stmts = append(stmts, g.stmts(1, i)...)
 		c.Nodes[i].Body = c.addBody(stmts)
+	}
+	if hostStop {
+		// ... and the program does stop somewhere: where the start node would run off its end
+		b := c.Nodes[0].Body
+		c.Bodies[b-1] = append(c.Bodies[b-1], Stmt{K: "cmd", Elems: []*Expr{eStr("stop")}})
 	}
 	if cfg.IntroNode && rnd.Intn(3) == 0 {
 		// a first node without any variable: a snapshot taken there holds no variables, and the
